@@ -695,10 +695,15 @@ func (ssc *defaultStatefulSetControl) updateControllerRevision(revision *kubeapp
 		if updated != nil {
 			clone = updated
 		}
-		if updated, err := ssc.csAppsV1.ControllerRevisions(clone.Namespace).Get(context.TODO(), clone.Name, metav1.GetOptions{}); err == nil {
-			// make a copy so we don't mutate the shared cache
-			clone = updated.DeepCopy()
+		updated, err := ssc.csAppsV1.ControllerRevisions(clone.Namespace).Get(context.TODO(), clone.Name, metav1.GetOptions{})
+		if err != nil {
+			// without a fresh copy a retry would compare against the in-memory clone, which already
+			// carries newRevision, and report success although nothing was written: undo that
+			clone.Revision = revision.Revision
+			return updateErr
 		}
+		// make a copy so we don't mutate the shared cache
+		clone = updated.DeepCopy()
 		return updateErr
 	})
 	return clone, err
